@@ -8,15 +8,15 @@ props = [json.loads(l) for l in open(os.path.join(ROOT, "properties.jsonl"))]
 ADDED = {
  "C01": "Also: a refresh round with two registered templates before the data (udp/dtls), and applications that reuse one list of element objects for all records.",
  "C02": "Also: applications that reuse their element objects, MakeDataSet, and a collector that does not read for a while so that sends block while the connection check runs (the stream must still tile into well-formed messages).",
- "C03": "Also: a fixed-length string element, unknown elements under enterprise numbers above 2^16 that alias registered ones, and the same oracle at log verbosity 5.",
- "C04": "Also: tcp sessions configured with a template TTL while time passes (templates of a tcp session never expire).",
- "C05": "Also: fields appended to a record by the user (external fields) must survive every reset and export.",
- "C06": "Also: one timeout switched off by the largest duration, a burst of thousands of flows through the same model, and two real-time scenarios with a blocking export callback (structural invariants only).",
- "C07": "Also: the exported MaxRetries setting as a case dimension (0..3).",
- "C08": "Also: template id ranges 256.., 1000.., 65533.. and the reserved range below 256.",
- "C09": "Also: single-record sets built through MakeDataSet, and a JSON-output-mode phase (refused sets write nothing; accepted records are JSON documents; byte counts add up).",
- "C10": "Also: the unconfigured TTL (default 1800 s).",
- "C11": "Also: long-lived real plain and TLS connections whose stream pauses 6 s (thorough up to 65 s) inside a message.",
+ "C03": "Also: a fixed-length string element, unknown elements under enterprise numbers above 2^16 that alias registered ones, and the same oracle at log verbosity 5. Templates of thousands of fields (sums of widths around and beyond 2^16, fields of length zero) with data sets of up to 65000 bytes.",
+ "C04": "Also: tcp sessions configured with a template TTL while time passes (templates of a tcp session never expire). Template records followed by more content in the same message (a second record, stray bytes, a second set).",
+ "C05": "Also: fields appended to a record by the user (external fields) must survive every reset and export. A process that also merges httpVals, with values that do and do not parse.",
+ "C06": "Also: one timeout switched off by the largest duration, a burst of thousands of flows through the same model, and two real-time scenarios with a blocking export callback (structural invariants only). Records that end with or before the last one from their node, and inter-node records that name neither Pod or both.",
+ "C07": "Also: the exported MaxRetries setting as a case dimension (0..3). A source exporter without the destinationPodName element whose peer never reports.",
+ "C08": "Also: template id ranges 256.., 1000.., 65533.. and the reserved range below 256. One udp and one tcp session of 70000 (thorough 140000) calls in lock step with the peer.",
+ "C09": "Also: single-record sets built through MakeDataSet, and a JSON-output-mode phase (refused sets write nothing; accepted records are JSON documents; byte counts add up). Zero-field records for ids never sent, and single records whose fields are each encodable but add up beyond a message.",
+ "C10": "Also: the unconfigured TTL (default 1800 s). Two scenarios off the harness clock: the production clock with 30 ms passing inside the call that arms the timer, and the expiry callback racing a refresh on two goroutines for 40000 (thorough 1.5 M) rounds.",
+ "C11": "Also: long-lived real plain and TLS connections whose stream pauses 6 s (thorough up to 65 s) inside a message. Thorough pauses now go to 95 and 125 s.",
  "C12": "Also: Stop after a Start that could not bring the server up, and hundreds of clients connected at once in waves followed by one ordinary client.",
  "C13": "Also: programs at log verbosity 5, and a burst of thousands of flows ingested and expired by concurrent goroutines (each exported exactly once).",
  "C14": "Also: JSON-mode exporters under refresh activity, the idle-close scenario over TLS, the real refresh ticker over DTLS, and a refresh round that cannot rebuild a registered template (next SendSet and Close must return).",
